@@ -610,6 +610,11 @@ class Project:
                 m = Module(self, name, path, rel)
                 self.modules[name] = m
                 self.by_rel[rel] = m
+        # a private definition that was only renamed is renamed back, so the
+        # rules find their anchors (sa/anchors.py)
+        from .anchors import rename_back
+        self.renamed_back = rename_back(
+            {m.rel: m.tree for m in self.modules.values()})
         self.functions = {}  # fq -> FuncInfo
         self.classes = {}  # fq -> ClassInfo
         self.func_of_node = {}
